@@ -268,7 +268,7 @@ pub fn minimise(prop: &str, oracle: &str, case: &Case, budget: usize) -> (Case, 
                     let is_reuse = matches!(&best.ops()[i], Op::Reuse(_));
                     let mut v = Vec::new();
                     let wrap = |o: Offer| if is_reuse { Op::Reuse(o) } else { Op::Call(o) };
-                    let plain = Offer { cap: o.cap, kind: o.kind, fill: 0, phase: 0, dst_off: 0, src_off: 0, query: o.query, pipe_cut: 0, pipe_hold: 0, submin: o.submin, method: o.method, form: o.form };
+                    let plain = Offer { cap: o.cap, kind: o.kind, fill: 0, phase: 0, dst_off: 0, src_off: 0, query: o.query, pipe_cut: 0, pipe_hold: 0, submin: o.submin, method: o.method, form: o.form, slack: o.slack };
                     if plain != *o {
                         v.push(wrap(plain.clone()));
                     }
